@@ -428,6 +428,75 @@ func (d *Driver) Next() Event {
 			st := []int64{15, 15, 15, 13, 7, 0}[d.R.Intn(6)]
 			val := []string{"", "", "v1", "v2"}[d.R.Intn(4)]
 			return Event{Kind: "Reset", Creator: n, Status: st, Val: val, Tx: d.P.HotKeys[n]}
+		case "ReportFaults", "RecoverFaults":
+			reporters := append(append([]string{}, d.C.Cfg.Fishmen...), d.P.Nodes...)
+			reporters = append(reporters, "a12")
+			creator := d.pick(reporters)
+			if len(d.C.Cfg.Fishmen) > 0 && d.R.Intn(10) < 6 {
+				creator = d.pick(d.C.Cfg.Fishmen)
+			}
+			var fs []FaultEv
+			var accused string
+			mk := func(sh PShard) (FaultEv, bool) {
+				o := d.findOrder(sh.Order)
+				if o == nil {
+					return FaultEv{}, false
+				}
+				return FaultEv{Data: o.Data, Order: o.Id, Shard: sh.Id, Commit: "c99", Provider: sh.Sp}, true
+			}
+			if k == "RecoverFaults" && len(d.St.Faults) > 0 && d.R.Intn(5) != 0 {
+				f := d.St.Faults[d.R.Intn(len(d.St.Faults))]
+				accused = f.Provider
+				fe := FaultEv{Data: f.Data, Order: f.Order, Shard: f.Shard, Commit: f.Commit, Provider: f.Provider}
+				if o := d.findOrder(f.Order); o != nil {
+					fe.Commit = o.Commit // recovery must name the order's commit
+				}
+				fs = append(fs, fe)
+				if d.R.Intn(2) == 0 {
+					creator = accused
+				}
+			} else if len(d.St.Shards) > 0 {
+				sh := d.St.Shards[d.R.Intn(len(d.St.Shards))]
+				var done []PShard
+				for _, x := range d.St.Shards {
+					if x.Status == 2 {
+						done = append(done, x)
+					}
+				}
+				if len(done) > 0 && d.R.Intn(5) != 0 {
+					sh = done[d.R.Intn(len(done))]
+				}
+				if fe, ok := mk(sh); ok {
+					accused = sh.Sp
+					switch d.R.Intn(14) {
+					case 0:
+						fe.Commit = "" // empty commit id
+					case 1:
+						if o := d.findOrder(fe.Order); o != nil {
+							fe.Commit = o.Commit
+						}
+					case 2:
+						fe.Shard += 1
+					case 3:
+						fe.Order += 1
+					case 4:
+						fe.Provider = d.pick(d.P.Nodes)
+					case 5:
+						fe.Data = "D9"
+					}
+					fs = append(fs, fe)
+					if d.R.Intn(4) == 0 { // duplicate entry
+						fs = append(fs, fe)
+					}
+				}
+			}
+			if accused == "" {
+				accused = d.pick(d.P.Nodes)
+			}
+			if d.R.Intn(6) == 0 {
+				accused = d.pick(d.P.Nodes)
+			}
+			return Event{Kind: k, Creator: creator, Provider: accused, Faults: fs}
 		case "Ready":
 			var cands []POrder
 			for _, o := range d.St.Orders {
